@@ -96,6 +96,8 @@ def spellings():
 
 EXPECTED_SECONDS = {"defaults": 3600, "time-int": 7200, "time-float": 5400, "time-hms-string": 5400, "hours": 10800,
                     "minutes": 2700, "seconds": 50, "hours-minutes-seconds": 3723, "flags-mixed": 3600}
+SCHED_SPECIFIC = ["mem-int", "gigabytes", "mem-per-cpu", "mem-string", "num-procs", "num-nodes", "flags-mixed",
+                  "num-procs-num-threads"]
 CHEAP = ["defaults", "time-int", "hours", "mem-int", "gigabytes", "num-procs", "flag-gpu", "flag-requeue-none",
          "debugging", "temp-gigabytes", "minutes", "num-nodes"]
 
@@ -188,6 +190,10 @@ def gen_configs(tier, rng):
         combos = [(s, m) for s in (only or SCHEDS) for m in MODES]
         if search:
             combos = [combos[k % len(combos)], combos[(k + 3) % len(combos)]]
+        elif not full and name in SCHED_SPECIFIC:
+            # the schedulers translate these differently (SLURM passes only what was given, PBS / SGE convert):
+            # every scheduler once, the mode alternating
+            combos = [(s, MODES[(k + j) % len(MODES)]) for j, s in enumerate(only or SCHEDS)]
         elif not full:
             combos = [combos[k % len(combos)], combos[(k + 3) % len(combos)]][:2 if k % 3 == 0 else 1]
         for sched, mode in combos:
